@@ -4,6 +4,7 @@ mod alloc;
 mod chain;
 mod codec;
 mod common;
+mod merkle;
 mod node;
 
 #[global_allocator]
@@ -25,6 +26,8 @@ fn main() {
     match suite {
         "codec" => codec::run(seed, tier, out),
         "chain" => chain::run(seed, tier, out),
+        "merkle" => merkle::run(seed, tier, out),
+        "merkle-one" => merkle::one(&args[2], &args[3]),
         "chain-worker" => chain::worker(seed, tier, args[4].parse().unwrap_or(0)),
         "chain-flags" => println!("{}", chain::calibrate()),
         "codec-one" => {
